@@ -55,10 +55,70 @@ theorem C12_record_layout (sz : Nat) (r : KeyRec) (v : List Nat) (nx : Nat) :
     freeContent sz nx = Vu64.encode (sz / 8) ++ [0] ++ Vu64.leBytes nx 8 := by
   exact ⟨rfl, rfl, rfl⟩
 
-/-- placement depends only on the key bytes and the table size: the bucket is
-`hash(len as 8 LE bytes, then the key, folded 8 bytes at a time big-endian) mod n` -/
+private theorem foldl_congr_mem {α β : Type} (f g : β → α → β) (l : List α)
+    (hfg : ∀ x ∈ l, ∀ acc, f acc x = g acc x) (a : β) : l.foldl f a = l.foldl g a := by
+  induction l generalizing a with
+  | nil => rfl
+  | cons x xs ih =>
+    simp only [List.foldl_cons]
+    rw [hfg x (by simp)]
+    exact ih (fun y hy => hfg y (by simp [hy])) _
+
+private theorem orFold_eq (c : List Nat) : ∀ (a j : Nat), a < 256 ^ j → j + c.length ≤ 8 →
+    (∀ b ∈ c, b < 256) →
+    c.foldl (fun a b => ((a <<< 8) % 2^64) ||| b) a = c.foldl (fun a b => a * 256 + b) a := by
+  induction c with
+  | nil => intros; rfl
+  | cons x xs ih =>
+    intro a j ha hj hb
+    simp only [List.foldl_cons]
+    have hx : x < 256 := hb x (by simp)
+    simp only [List.length_cons] at hj
+    have h1 : a * 256 + x < 256 ^ (j + 1) := by
+      rw [Nat.pow_succ]
+      have : (a + 1) * 256 ≤ 256 ^ j * 256 := Nat.mul_le_mul_right _ ha
+      omega
+    have h2 : 256 ^ (j + 1) ≤ 256 ^ 8 := Nat.pow_le_pow_right (by decide) (by omega)
+    have h3 : (256:Nat) ^ 8 = 2 ^ 64 := by simp
+    have h4 : a <<< 8 < 2 ^ 64 := by
+      rw [Nat.shiftLeft_eq, ← h3]
+      have h6 : a * 256 < 256 ^ (j + 1) := Nat.lt_of_le_of_lt (Nat.le_add_right _ _) h1
+      exact Nat.lt_of_lt_of_le h6 h2
+    have h5 : ((a <<< 8) % 2^64) ||| x = a * 256 + x := by
+      rw [Nat.mod_eq_of_lt h4, ← Nat.shiftLeft_add_eq_or_of_lt (by omega), Nat.shiftLeft_eq]
+    rw [h5]
+    exact ih _ (j + 1) h1 (by omega) (fun b hb' => hb b (by simp [hb']))
+
+private theorem mem_chunksOf {k : Nat} {l c : List Nat} (hc : c ∈ Gen.chunksOf k l) :
+    c.length ≤ k ∧ ∀ b ∈ c, b ∈ l := by
+  unfold Gen.chunksOf at hc
+  rw [List.mem_map] at hc
+  obtain ⟨i, _, rfl⟩ := hc
+  refine ⟨?_, fun b hb => List.mem_of_mem_drop (List.mem_of_mem_take hb)⟩
+  rw [List.length_take]; omega
+
+/-- the released placement hash, written out: fold the chunks of 8 bytes, each read big-endian
+(a shorter last chunk likewise), through `h := xorshift64s ((h + chunk) mod 2^64)` -/
+def releasedHashWrite (h : Nat) (bytes : List Nat) : Nat :=
+  (Gen.chunksOf 8 bytes).foldl (fun h c => Gen.xorshift64s ((h + Gen.beVal c) % 2^64)) h
+
+/-- the regenerated `MyHasher::write` is the released one (for byte values) -/
+theorem C12_hash_frozen (h : Nat) (bytes : List Nat) (hb : ∀ b ∈ bytes, b < 256) :
+    Gen.hasherWrite h bytes = releasedHashWrite h bytes := by
+  unfold Gen.hasherWrite releasedHashWrite
+  apply foldl_congr_mem
+  intro c hc acc
+  obtain ⟨hlen, hmem⟩ := mem_chunksOf hc
+  by_cases h8 : c.length = 8
+  · simp [h8]
+  · simp only [h8, decide_false, Bool.false_eq_true, if_false]
+    have := orFold_eq c 0 0 (by decide) (by omega) (fun b hb' => hb b (hmem b hb'))
+    rw [this]; rfl
+
+/-- placement depends only on the key bytes and the table size: the bucket is the hash of the
+length prefix (8 LE bytes) followed by the key, modulo `n` -/
 theorem C12_placement (key : List Nat) (n : Nat) :
-    bucketOf key n = hashWrite (key.length + 1) (hashWrite 1 0 (Vu64.leBytes key.length 8)) key % n := by
+    bucketOf key n = Gen.hasherWrite (Gen.hasherWrite 0 (Vu64.leBytes key.length 8)) key % n := by
   rfl
 
 /-- and every live key sits in the chain of exactly that bucket (from the invariant) -/
